@@ -51,9 +51,9 @@ PROPS = {
     "C01": {
         "modules": ["VmMem.Props.C01"],
         "theorems": T("C01"),
-        "runs": lambda tier: runs_slice(tier),
+        "runs": lambda tier: with_proj(runs_slice(tier), {"ops": DERIVE_OPS, "drop": ["h=", "d="]})
+        + runs_gm(tier, ["mixed"], {"ops": ["g.host", "g.slice", "gr.host", "gr.slice", "g.begin", "g.region", "g.build"], "drop": ["h=", "d="]}, chk=False),
         # C01 talks about which accessor (if any) a request yields: compare derivation ops only
-        "proj": {"ops": DERIVE_OPS, "drop": ["h=", "d="]},
         "trusted_base": ["the caller-provided root really is a live allocation that does not wrap the address space (unsafe fn new/with_bitmap contract)",
                          "raw-pointer arithmetic ptr.add(off) yields address + off (no provenance model)"],
         "assumptions": ["64-bit target"],
@@ -120,7 +120,7 @@ def with_proj(runs, proj):
 PROPS.update({
     "C02": {
         "modules": ["VmMem.Props.C02"], "theorems": T("C02"),
-        "runs": lambda tier: runs_gm(tier, ["exhaustive", "mixed"], {"ops": QUERY_OPS, "drop": ["h=", "d="]}),
+        "runs": lambda tier: runs_gm(tier, ["exhaustive", "mixed", "edit"], {"ops": QUERY_OPS + ["g.insert", "g.remove"], "drop": ["h=", "d="]}),
         "trusted_base": ["slice::binary_search_by_key contract on a slice strictly sorted by key (model parameter `bsearch`; exercised)"],
         "assumptions": ["regions are built through the safe constructors (non-empty, start+len < 2^64): hypothesis WF, discharged for the mmap backend by C10"],
     },
@@ -163,7 +163,7 @@ PROPS.update({
         "assumptions": ["scripts are finite; an exhausted script behaves as `full`"],
     },
     "C17": {
-        "modules": ["VmMem.Props.C17"], "theorems": T("C17"),
+        "modules": ["VmMem.Props.C17", "VmMem.Props.C17x"], "theorems": T("C17") + T("C17x"),
         "runs": lambda tier: with_proj(runs_slice(tier), {"ops": GUARD_OPS, "drop": ["h=", "d="]}) + runs_xen(tier),
         "trusted_base": ["Xen gntdev/privcmd ioctls and mmap (kernel), emulated by hook H3: grant reference r = file offset r*4096; page size from sysconf"],
         "assumptions": ["PARTIAL: the on-demand half is proved over the window model (VmMem/Model/Xen.lean) and tied by the xen-feature run through emulated ioctls (every touched byte range must lie in a window requested during the op, "
@@ -205,13 +205,13 @@ PROPS.update({
                         "The correspondence run is sequential; the thorough tier adds a reader/updater stress on real threads"],
     },
     "C12": {
-        "modules": ["VmMem.Props.C12", "VmMem.Props.C15x"], "theorems": T("C12") + [t for t in T("C15x") if "drop" in t],
+        "modules": ["VmMem.Props.C12", "VmMem.Props.C15x", "VmMem.Props.C12x"], "theorems": T("C12") + [t for t in T("C15x") if "drop" in t] + T("C12x"),
         "runs": lambda tier: [{"world": "life", "n": 2500 if tier == "quick" else 60000}, runs_xbuild(tier)],
         "corpus": True,
         "trusted_base": ["Arc drops its value exactly when the last reference goes; munmap/mmap are the kernel's; /proc/self/maps reflects the mappings",
                          "rustc's borrow checker (programs quantifier)"],
-        "assumptions": ["PARTIAL: histories are proved over the ownership model and tied by /proc/self/maps observations; 'an escaping accessor must not compile' is decided by a corpus of 23 escaping programs "
-                        "(all must be rejected with a borrow/lifetime error) and 6 controls, i.e. by testing a corpus, not by a theorem"],
+        "assumptions": ["PARTIAL: histories are proved over the ownership model and tied by /proc/self/maps observations; 'an escaping accessor must not compile' is decided by a corpus of 32 escaping programs "
+                        "(all must be rejected with a borrow/lifetime error) and 8 controls, i.e. by testing a corpus, not by a theorem"],
     },
     "C15": {
         "modules": ["VmMem.Props.C15", "VmMem.Props.C15x"], "theorems": T("C15") + T("C15x"),
